@@ -575,14 +575,25 @@ Lemma process_patch_unfold o bytes :
    let! st := section_loop (S (S (length bytes))) o f ds0 (stream_of bytes) true in finish o st).
 Proof. reflexivity. Qed.
 
-Lemma Sim_finalize_writes o a : forall ds st,
+Lemma Sim_finalize_writes_from o a all : forall ds st,
+  (forall d, In d all -> d_backup d = true -> fresh_backup o a (d_dest d)) ->
+  incl ds all ->
+  Sim (merge a) (finalize_writes_from o all st ds) (finalize_writes_from o all (merge a st) ds).
+Proof.
+  induction ds as [|d r IH]; intros st H Hi; cbn [finalize_writes_from]; [apply Sim_ret|].
+  apply Sim_bind_same. intros _. eapply Sim_bind.
+  - apply Sim_write_now. unfold with_backup_of. cbn [d_backup d_dest]. intros Hb.
+    apply orb_true_iff in Hb. destruct Hb as [Hb|Hb].
+    + apply H; [apply Hi; left; reflexivity|exact Hb].
+    + apply existsb_exists in Hb. destruct Hb as (x & Ix & Hx). apply andb_true_iff in Hx. destruct Hx as [Hd Hbx].
+      apply str_eqb_eq in Hd. rewrite <- Hd. apply H; [exact Ix|exact Hbx].
+  - intros st'. apply IH; [exact H|]. intros d' I'. apply Hi. right. exact I'.
+Qed.
+
+Lemma Sim_finalize_writes o a ds st :
   (forall d, In d ds -> d_backup d = true -> fresh_backup o a (d_dest d)) ->
   Sim (merge a) (finalize_writes o st ds) (finalize_writes o (merge a st) ds).
-Proof.
-  induction ds as [|d r IH]; intros st H; cbn [finalize_writes]; [apply Sim_ret|].
-  apply Sim_bind_same. intros _. eapply Sim_bind; [apply Sim_write_now; apply H; left; reflexivity|].
-  intros st'. apply IH. intros d' I'. apply H. right. exact I'.
-Qed.
+Proof. intros H. unfold finalize_writes. apply Sim_finalize_writes_from; [exact H|apply incl_refl]. Qed.
 
 (* exit status and report of a run that comes after sections summarised by a *)
 Definition exit_of (st : dstate) : nat := if had_failure st then 1 else 0.
